@@ -80,11 +80,10 @@ impl Math<f32> for FastMath {
 
     #[inline(always)]
     fn div(a: f32, b: f32) -> f32 {
-        if cfg!(miri) {
-            a / b
-        } else {
-            intrinsics::fdiv_algebraic(a, b)
-        }
+        // Plain IEEE division: the algebraic intrinsic lets the compiler rewrite `x / v` as
+        // `x * (1.0 / v)` (hoisted out of the scalar tail loops), which overflows to infinity
+        // or loses all precision when `1.0 / v` is not a normal number.
+        a / b
     }
 
     #[cfg(test)]
@@ -171,11 +170,10 @@ impl Math<f64> for FastMath {
 
     #[inline(always)]
     fn div(a: f64, b: f64) -> f64 {
-        if cfg!(miri) {
-            a / b
-        } else {
-            intrinsics::fdiv_algebraic(a, b)
-        }
+        // Plain IEEE division: the algebraic intrinsic lets the compiler rewrite `x / v` as
+        // `x * (1.0 / v)` (hoisted out of the scalar tail loops), which overflows to infinity
+        // or loses all precision when `1.0 / v` is not a normal number.
+        a / b
     }
 
     #[cfg(test)]
